@@ -4,13 +4,21 @@ TraceLog == ndJsonDeserialize(IOEnv.TRACE)
 VARIABLE l
 E == TraceLog[l]
 IsEvent(op) == l <= Len(TraceLog) /\ TraceLog[l].op = op /\ l' = l + 1
-TFoot == IsEvent("footprint") /\ Footprint(E.staticIoBufs, E.globalsWritten, E.allowed, E.foreignCloses, E.raced)
+TFoot == IsEvent("footprint") /\ Footprint(E.staticIoBufs, E.globalsWritten, E.allowed, E.foreignCloses, E.raced, E.umaskCalls)
+\* open finding C19-umask-around-mkstemp: get_tmp_fd swaps the process-wide file mode creation mask to 0177 around mkstemp and
+\* back.  Enabled only if the finding is listed, only when the contract does not explain the footprint, only for exactly that
+\* pattern (two umask calls per mkstemp call, the mask inside mkstemp being 0177 = 127), everything else as the contract demands
+TKnownUmask == /\ IsEvent("footprint") /\ E.umaskListed
+               /\ ~Footprint(E.staticIoBufs, E.globalsWritten, E.allowed, E.foreignCloses, E.raced, E.umaskCalls)
+               /\ E.umaskCalls > 0 /\ E.umaskCalls = 2 * E.mkstempCalls /\ E.umaskInMkstemp = 127
+               /\ Footprint(E.staticIoBufs, E.globalsWritten, E.allowed, E.foreignCloses, E.raced, 0)
+               /\ PrintT(<<"DEVIATION", "C19-umask-around-mkstemp">>)
 TSame == IsEvent("scenario")  /\ SameAsSerial(E.serial, E.concurrent)
 TInit == l = 1
 \* the one open finding of C19 (known_findings.json, C19-unknown-name-buffer): a race on the static name buffer for unknown
 \* type ids.  Enabled only if the finding is listed (E.listed is taken from the file by the check), only for that location
 TKnownRace == IsEvent("KnownRace") /\ E.listed /\ E.location = "global 'unknown'" /\ PrintT(<<"DEVIATION", "C19-unknown-name-buffer">>)
-TNext == TFoot \/ TSame \/ TKnownRace
+TNext == TFoot \/ TSame \/ TKnownRace \/ TKnownUmask
 TSpec == TInit /\ [][TNext]_l
 Accepted == /\ PrintT(<<"MATCHED", TLCGet("stats").diameter - 1, Len(TraceLog)>>)
             /\ TLCGet("stats").diameter - 1 = Len(TraceLog)
